@@ -455,7 +455,7 @@ pub fn describe_grammars(thorough: bool) -> String {
 
 pub fn describe_plan(p: &Plan) -> String {
 	format!(
-		"per AST: full per-site product of definition-name spellings (inherited / dotted fullname / simple name + namespace attribute incl. \"\" / dotted + contradicting namespace attribute) x reference spellings (simple / fullname) under the plain document-level configuration; 'every site takes option k' (k=0..3; primitives as string or {{\"type\":..}} too) under all 18 document-level configurations (attribute order type-first/name-first/reversed x extra attributes none/doc+aliases+default+order/unknown keys with nested JSON x minified/whitespace) for ASTs with <= {} named types and the hand-written families (larger: k=0..3 plain + k=1 under the 17 others){}{}{}; bare strings in type position (primitives and references: root, field type, items, values, union members) written with a \\uXXXX escape: all sites at once (first / last character) in 6 spellings for every AST, every non-empty subset of the sites (<= 4 sites) or every single site for ASTs with <= 2 named types and the hand-written families; `scale` omitted where it is 0 in the decimal families; leaf cap {} per product",
+		"per AST: full per-site product of definition-name spellings (inherited / dotted fullname / simple name + namespace attribute incl. \"\" / dotted + contradicting namespace attribute) x reference spellings (simple / fullname) under the plain document-level configuration; 'every site takes option k' (k=0..3; primitives as string or {{\"type\":..}} too) under all 18 document-level configurations (attribute order type-first/name-first/reversed x extra attributes none/doc+aliases+default+order/unknown keys with nested JSON x minified/whitespace) for ASTs with <= {} named types and the hand-written families (larger: k=0..3 plain + k=1 under the 17 others){}{}{}; bare strings in type position (primitives and references: root, field type, items, values, union members) written with a \\uXXXX escape: all sites at once (first / last character) in 4 spellings for every AST, every non-empty subset of the sites (<= 4 sites) or every single site for ASTs with <= 2 named types and the hand-written families; every string position the parser reads (name, namespace, field name, symbol, the type attribute of a schema object, logicalType, doc, aliases entries, type-position strings, keys of unknown attributes, the known attribute keys themselves) written with a \\uXXXX escape of its first or last character: all positions at once in two decorated spellings for every AST, one spelling per position kind for ASTs with <= 1 named type and the hand-written families; `scale` omitted where it is 0 in the decimal families; leaf cap {} per product",
 		p.diag_full_max_named,
 		if p.full_product_max_named > 0 { format!("; all sites (names x references x primitives x scale) x 18 configurations for ASTs with <= {} named types and <= 14 nodes", p.full_product_max_named) } else { String::new() },
 		if p.all_sites_product_max_named > 0 { format!("; all sites under the plain configuration for ASTs with <= {} named types and <= 14 nodes", p.all_sites_product_max_named) } else { String::new() },
@@ -532,6 +532,23 @@ pub fn specials() -> Vec<(String, RSchema, bool)> {
 				false,
 			));
 		}
+	}
+	// decimal boundaries: scale = precision is valid (0 <= scale <= precision); over bytes and
+	// over fixed at the largest precision the fixed can hold
+	{
+		let bytes_ps: [(usize, u32); 5] = [(1, 0), (1, 1), (2, 2), (4, 4), (38, 38)];
+		let fixed_sps: [(usize, usize, u32); 6] = [(1, 1, 0), (1, 1, 1), (1, 2, 2), (2, 4, 4), (8, 18, 18), (16, 38, 38)];
+		for (i, (p, sc)) in bytes_ps.iter().enumerate() {
+			out.push((format!("decimal-bounds-root-bytes-{i}"), RSchema::decimal_bytes(*p, *sc), *sc == 0));
+		}
+		for (i, (size, p, sc)) in fixed_sps.iter().enumerate() {
+			out.push((format!("decimal-bounds-root-fixed-{i}"), RSchema::decimal_fixed("a.F", *size, *p, *sc), *sc == 0));
+		}
+		let mut fields: Vec<(String, RSchema)> = bytes_ps.iter().enumerate().map(|(i, (p, sc))| (format!("b{i}"), RSchema::decimal_bytes(*p, *sc))).collect();
+		// (two of the fixed ones only: the spelling product grows with the number of named types)
+		fields.extend(fixed_sps.iter().enumerate().filter(|(i, _)| *i == 2 || *i == 5).map(|(i, (size, p, sc))| (format!("f{i}"), RSchema::decimal_fixed(&format!("a.F{i}"), *size, *p, *sc))));
+		fields.push(("f2again".to_owned(), RSchema::array(RSchema::Ref("a.F2".into()))));
+		out.push(("decimal-bounds-fields".to_owned(), RSchema::Record { name: "a.X".into(), fields }, false));
 	}
 	// enum with zero symbols (accepted by the crate; canonical form "symbols":[])
 	for (ni, ns) in NAMESPACES.iter().enumerate() {
@@ -974,8 +991,35 @@ pub fn for_each_spelling(case: &AstCase, plan: &Plan, cover: &mut Cover, f: &mut
 	if plan.escapes >= 1 {
 		// every bare type-position string escaped (first character for even k, last for odd k)
 		let mut cfgs: Vec<(usize, SpellCfg)> = (0..4).map(|k| (k, SpellCfg { vary_names: true, vary_refs: true, vary_prims: true, vary_scale: false, attr_order: 0, extras: 0, whitespace: 0 })).collect();
-		cfgs.push((1, SpellCfg { vary_names: true, vary_refs: true, vary_prims: true, vary_scale: false, attr_order: 2, extras: 2, whitespace: 1 }));
-		cfgs.push((0, SpellCfg { vary_names: false, vary_refs: false, vary_prims: false, vary_scale: false, attr_order: 1, extras: 1, whitespace: 0 }));
+		// every string position the parser reads, escaped: two decorated spellings with all
+		// positions at once (for every AST), one spelling per position kind (small ASTs and the
+		// hand-written families)
+		{
+			let cfg_a = SpellCfg { vary_names: true, vary_refs: true, vary_prims: true, vary_scale: false, attr_order: 0, extras: 1, whitespace: 0 };
+			let cfg_b = SpellCfg { vary_names: true, vary_refs: true, vary_prims: true, vary_scale: false, attr_order: 2, extras: 2, whitespace: 1 };
+			let a = spell(&case.ast, &mut DiagPick(2), &cfg_a);
+			let b = spell(&case.ast, &mut DiagPick(1), &cfg_b);
+			let mut emit = |base: &str, kind: EscKind, last: bool, k: usize, cfg: &SpellCfg, cover: &mut Cover| {
+				let (text, n) = escape_kind(base, kind, last);
+				if n > 0 {
+					cover.count(&format!("escaped_spellings:{kind:?}"), 1);
+					cover.states += 1;
+					cover.transitions += 1;
+					f(&Doc { case, text, tok: SpellTok::Diag(k), cfg: cfg.clone() }, cover);
+				}
+			};
+			emit(&a, EscKind::All, false, 2, &cfg_a, cover);
+			emit(&b, EscKind::All, true, 1, &cfg_b, cover);
+			if case.feats.named <= 1 || !case.family.starts_with('k') {
+				for (i, kind) in ESC_KINDS.iter().enumerate() {
+					if *kind == EscKind::UnknownKey {
+						emit(&b, *kind, i % 2 == 1, 1, &cfg_b, cover);
+					} else {
+						emit(&a, *kind, i % 2 == 1, 2, &cfg_a, cover);
+					}
+				}
+			}
+		}
 		for (k, cfg) in cfgs {
 			let text = spell(&case.ast, &mut DiagPick(k), &cfg);
 			let (text, n) = escape_type_strings(&text, &mut |_| Some(k % 2 == 1));
@@ -1718,4 +1762,216 @@ pub fn escape_type_strings(text: &str, choose: &mut dyn FnMut(usize) -> Option<b
 		}
 	}
 	(out, n)
+}
+
+/// Kinds of string positions a schema document has.
+#[derive(Clone, Copy, Debug, PartialEq, Eq)]
+pub enum EscKind {
+	TypePos,
+	Name,
+	Namespace,
+	FieldName,
+	Symbol,
+	TypeAttr,
+	LogicalType,
+	Doc,
+	Alias,
+	UnknownKey,
+	AttrKey,
+	All,
+}
+
+pub const ESC_KINDS: [EscKind; 11] =
+	[EscKind::TypePos, EscKind::Name, EscKind::Namespace, EscKind::FieldName, EscKind::Symbol, EscKind::TypeAttr, EscKind::LogicalType, EscKind::Doc, EscKind::Alias, EscKind::UnknownKey, EscKind::AttrKey];
+
+/// Rewrite a schema document so that every string of the given position kind (all kinds for
+/// `All`) — values AND object keys — is written with a `\uXXXX` escape for its first (or last)
+/// character. Returns the text and the number of strings escaped.
+pub fn escape_kind(text: &str, kind: EscKind, last: bool) -> (String, usize) {
+	struct W {
+		kind: EscKind,
+		last: bool,
+		n: usize,
+	}
+	impl W {
+		fn on(&self, k: EscKind) -> bool {
+			self.kind == EscKind::All || self.kind == k
+		}
+		fn mark(&mut self, s: &mut String) {
+			if s.is_empty() {
+				return;
+			}
+			let at = if self.last { s.char_indices().last().map(|(i, _)| i).unwrap_or(0) } else { 0 };
+			s.insert(at, ESC_MARK);
+			self.n += 1;
+		}
+		fn mark_val(&mut self, v: &mut J, k: EscKind) {
+			if self.on(k) {
+				if let J::Str(s) = v {
+					self.mark(s);
+				}
+			}
+		}
+		fn mark_arr(&mut self, v: &mut J, k: EscKind) {
+			if let J::Arr(a) = v {
+				for e in a.iter_mut() {
+					self.mark_val(e, k);
+				}
+			}
+		}
+		/// a node in type position
+		fn node(&mut self, j: &mut J) {
+			match j {
+				J::Str(_) => self.mark_val(j, EscKind::TypePos),
+				J::Arr(v) => v.iter_mut().for_each(|b| self.node(b)),
+				J::Obj(kv) => {
+					let t = kv.iter().find(|(k, _)| k == "type").and_then(|(_, v)| v.as_str()).map(|s| s.to_owned());
+					for (k, v) in kv.iter_mut() {
+						let known = match k.as_str() {
+							"name" => {
+								self.mark_val(v, EscKind::Name);
+								true
+							}
+							"namespace" => {
+								self.mark_val(v, EscKind::Namespace);
+								true
+							}
+							"type" => {
+								self.mark_val(v, EscKind::TypeAttr);
+								true
+							}
+							"logicalType" => {
+								self.mark_val(v, EscKind::LogicalType);
+								true
+							}
+							"doc" => {
+								self.mark_val(v, EscKind::Doc);
+								true
+							}
+							"aliases" => {
+								self.mark_arr(v, EscKind::Alias);
+								true
+							}
+							"symbols" => {
+								self.mark_arr(v, EscKind::Symbol);
+								true
+							}
+							"fields" if t.as_deref() == Some("record") => {
+								if let J::Arr(fs) = v {
+									for f in fs.iter_mut() {
+										self.field(f);
+									}
+								}
+								true
+							}
+							"items" if t.as_deref() == Some("array") => {
+								self.node(v);
+								true
+							}
+							"values" if t.as_deref() == Some("map") => {
+								self.node(v);
+								true
+							}
+							"size" | "precision" | "scale" | "default" | "order" => true,
+							_ => false,
+						};
+						if self.on(if known { EscKind::AttrKey } else { EscKind::UnknownKey }) {
+							self.mark(k);
+						}
+					}
+				}
+				_ => {}
+			}
+		}
+		fn field(&mut self, f: &mut J) {
+			if let J::Obj(kv) = f {
+				for (k, v) in kv.iter_mut() {
+					let known = match k.as_str() {
+						"name" => {
+							self.mark_val(v, EscKind::FieldName);
+							true
+						}
+						"type" => {
+							self.node(v);
+							true
+						}
+						"doc" => {
+							self.mark_val(v, EscKind::Doc);
+							true
+						}
+						"aliases" => {
+							self.mark_arr(v, EscKind::Alias);
+							true
+						}
+						"default" | "order" => true,
+						_ => false,
+					};
+					if self.on(if known { EscKind::AttrKey } else { EscKind::UnknownKey }) {
+						self.mark(k);
+					}
+				}
+			}
+		}
+	}
+	fn pretty(j: &J, ind: usize, out: &mut String) {
+		let pad = |n: usize, out: &mut String| {
+			out.push('\n');
+			for _ in 0..n {
+				out.push(' ');
+			}
+		};
+		match j {
+			J::Arr(a) if !a.is_empty() => {
+				out.push('[');
+				for (i, v) in a.iter().enumerate() {
+					if i > 0 {
+						out.push(',');
+					}
+					pad(ind + 1, out);
+					pretty(v, ind + 1, out);
+				}
+				pad(ind, out);
+				out.push(']');
+			}
+			J::Obj(kv) if !kv.is_empty() => {
+				out.push('{');
+				for (i, (k, v)) in kv.iter().enumerate() {
+					if i > 0 {
+						out.push(',');
+					}
+					pad(ind + 1, out);
+					vmodel::json::write_str(k, out);
+					out.push_str(" : ");
+					pretty(v, ind + 1, out);
+				}
+				pad(ind, out);
+				out.push('}');
+			}
+			other => other.write_min(out),
+		}
+	}
+	let mut j = vmodel::json::parse(text).expect("own speller writes JSON");
+	let mut w = W { kind, last, n: 0 };
+	w.node(&mut j);
+	let rendered = if is_minified(text) {
+		j.to_min_string()
+	} else {
+		let mut s = String::new();
+		pretty(&j, 0, &mut s);
+		s
+	};
+	let mut out = String::with_capacity(rendered.len() + 16);
+	let mut it = rendered.chars();
+	while let Some(c) = it.next() {
+		if c == ESC_MARK {
+			let e = it.next().expect("marker precedes a character");
+			let mut buf = [0u16; 2];
+			for u in e.encode_utf16(&mut buf) {
+				out.push_str(&format!("\\u{:04x}", u));
+			}
+		} else {
+			out.push(c);
+		}
+	}
+	(out, w.n)
 }
